@@ -253,7 +253,7 @@ def h5view(ctx, fn, exp, what):
                   note="file does not hold the subregion corners", **what)
 
 
-def write_read(ctx, tmp, f, exp, what, ext=None):
+def write_read(ctx, tmp, f, exp, what, ext=None, keep=False):
     fn = os.path.join(tmp, "f" + (ext or gen.pick(ctx.rng, [".h5", ".hdf5"])))
     try:
         f.to_file(fn)
@@ -273,15 +273,19 @@ def write_read(ctx, tmp, f, exp, what, ext=None):
                   files=os.listdir(tmp), **what)
         compare(ctx, f, r, exp, what)
     finally:
-        if os.path.exists(fn):
+        if os.path.exists(fn) and not keep:
             os.remove(fn)
 
 
 # ------------------------------------------------------------- kinds 0, 1: random
-def random_field(ctx, tmp):
+def random_field(ctx, tmp, spec=None, ext=None):
     rng = ctx.rng
-    spec = gen.rand_meshspec(rng, n_max=6 if ctx.thorough else 5,
-                             max_cells=600 if ctx.thorough else 200)
+    again = spec is None and rng.random() < 0.35
+    if again:
+        ext = gen.pick(rng, [".h5", ".hdf5"])
+    if spec is None:
+        spec = gen.rand_meshspec(rng, n_max=6 if ctx.thorough else 5,
+                                 max_cells=600 if ctx.thorough else 200)
     tol = float(gen.pick(rng, TOLS))
     bc = _rand_bc(rng, spec.dim_names)
     boxes, regions = gen.rand_subregions(rng, spec, kmax=3)
@@ -340,7 +344,13 @@ def random_field(ctx, tmp):
               ig.bits_equal(f.array, arr) if arr.dtype.kind in "fc" else np.array_equal(f.array, arr),
               dtype=dtype)
     exp["arr"] = np.array(f.array) if arr.dtype.kind not in "fc" else arr
-    write_read(ctx, tmp, f, exp, what)
+    write_read(ctx, tmp, f, exp, what, ext=ext, keep=again)
+    if again:
+        # the same file name written again (the next step of a run overwrites the last):
+        # same lattice, everything else drawn afresh - boundary conditions, subregions,
+        # tolerance factor, components, dtype, labels, unit, validity
+        ctx.event("same_file_rewritten")
+        random_field(ctx, tmp, spec=spec, ext=ext)
 
 
 # ------------------------------------------------------- kind 2: corner typings
